@@ -111,6 +111,54 @@ def jsonErrStr : JsonErr → String
 
 def modelOpt (o : Option String) : String := o.getD "bad-op"
 
+/-- `T := L <ty> | N <kind> <ty> <k> T… | F <ty> <namehex> <idx|-> <k> T…` -/
+partial def parseTree : List String → Option (PExpr × List String)
+  | "L" :: rest => (parseTy rest).map fun (t, r) => (.leaf t, r)
+  | "N" :: _ :: rest => do
+    let (t, r) ← parseTy rest
+    match r with
+    | k :: r' =>
+      let (as, r'') ← many k.toNat! r'
+      pure (.node t as, r'')
+    | [] => none
+  | "F" :: rest => do
+    let (t, r) ← parseTy rest
+    match r with
+    | name :: idx :: k :: r' =>
+      let (as, r'') ← many k.toNat! r'
+      let nm := parseName name
+      let ds := (lookupFn Gen.WireFunctions.table nm).getD []
+      let (sig, fn) : Sig × Option Nat :=
+        if idx == "-" then (⟨[], .null, false⟩, none)
+        else match ds[idx.toNat!]? with
+          | some d => (d.sig, some idx.toNat!)
+          | none => (⟨[], .null, false⟩, none)
+      pure (.call t nm sig fn as, r'')
+    | _ => none
+  | _ => none
+where
+  many : Nat → List String → Option (List PExpr × List String)
+    | 0, rest => some ([], rest)
+    | k + 1, rest => do
+      let (e, r) ← parseTree rest
+      let (es, r') ← many k r
+      pure (e :: es, r')
+
+def showFns (fs : List (Option Nat)) : String :=
+  String.intercalate " " (fs.map fun f => match f with | some i => toString i | none => "none")
+
+mutual
+/-- every call carries the descriptor of the typechecker's exact pass (executable form of `exactTyped`) -/
+partial def exactTypedB : PExpr → Bool
+  | .leaf _ => true
+  | .node _ args => args.all exactTypedB
+  | .call _ name _ fn args =>
+    args.all exactTypedB &&
+    (match lookupFn Gen.WireFunctions.table name, fn with
+     | some ds, some i => exactPassFrom (tysOf args) 0 ds none == .found i
+     | _, _ => false)
+end
+
 /-- model side: the same line the Go driver prints -/
 def model (toks : List String) : String :=
   match toks with
@@ -203,6 +251,11 @@ def model (toks : List String) : String :=
   | "jsonty" :: rest => modelOpt do
       let (t, _) ← parseTy rest
       pure (encodeTy (jsonTy t))
+  | "tree" :: rest => modelOpt do
+      let (e, _) ← parseTree rest
+      match repopTree Gen.WireFunctions.table (stripFns e) with
+      | some (e', ok) => pure (String.intercalate " " (("fns" :: (fnsOf e').map fun f => match f with | some i => toString i | none => "none") ++ [s!"ok={b01 ok}"]))
+      | none => pure "panic"
   | "pred" :: _ => "nomodel"
   | "e2e" :: _ => "nomodel"
   | _ => "bad-op"
@@ -310,6 +363,16 @@ def judge (toks : List String) (out : List String) : String :=
           "known json-invalid-utf8 a struct field name that is not valid UTF-8 reaches the plugin with U+FFFD in place of the offending bytes"
         else "bad type-changed-by-json"
       | none => "bad unparsable-op")
+  | "tree" :: rest, [out1] =>
+    (match parseTree rest, out1.getLast? with
+     | some (e, _), some okTok =>
+       let fns := (out1.drop 1).dropLast
+       if okTok == "ok=1" then
+         -- accepted: the plugin evaluates these functions; they must be the ones that were attached
+         (if String.intercalate " " fns == showFns (fnsOf e) then "ok" else "bad predicate-accepted-with-other-functions")
+       else if exactTypedB e then "bad well-typed-predicate-rejected"
+       else "ok"
+     | _, _ => "bad unparsable-op")
   | "e2e" :: _, [res :: _] =>
     -- the same query on the same data, natively and through the plugin process
     if res == "same" || res == "err-both" || res == "unavailable" then "ok" else "bad plugin-table-differs-from-native"
